@@ -28,18 +28,27 @@ def gen_case(rng, nmax=25):
             'tolerance': rng.choice([0, 10, 22.5, 45, 90, 120, 180, 270, 360, rng.uniform(0, 360)]),
             'bandwidth': bw, 'model': rng.choice(['compass', 'triangle']), 'n_lags': rng.randint(2, 8),
             'estimator': rng.choice(['matheron', 'cressie', 'dowd']), 'bin_func': rng.choice(['even', 'even', 'uniform']),
-            'maxlag': rng.choice([None, None, 0.6, 'median']),
+            'maxlag': rng.choice([None, None, 0.6, 'median']), 'dist_func': rng.choice(['euclidean', 'euclidean', 'euclidean', 'cityblock', 'chebyshev']),
             'tags': {'points': kind, 'n': len(c)}}
 
 
 def build(case, **over):
     kw = dict(azimuth=case['azimuth'], tolerance=case['tolerance'], bandwidth=case['bandwidth'], directional_model=case['model'],
               n_lags=case['n_lags'], estimator=case['estimator'], bin_func=case['bin_func'], maxlag=case['maxlag'],
-              fit_method='manual', fit_range=1.0, fit_sill=1.0)
+              fit_method='manual', fit_range=1.0, fit_sill=1.0, dist_func=case.get('dist_func', 'euclidean'))
     kw.update(over)
     coords = np.array(over.pop('coords', case['coords']), float) if 'coords' in over else np.array(case['coords'], float)
     kw.pop('coords', None)
     return DirectionalVariogram(coords, np.array(case['values'], float), **kw)
+
+
+def resolved_bandwidth(case):
+    """the bandwidth as the caller gave it: a number is used as it is (also beyond the largest distance), 'qNN' is the
+    NN-th percentile of the pairwise distances"""
+    bw = case['bandwidth']
+    if isinstance(bw, str):
+        return float(np.percentile(pdist(np.array(case['coords'], float), case.get('dist_func', 'euclidean')), int(bw[1:])))
+    return float(bw)
 
 
 def geometry(case, c=None, azimuth=None, tolerance=None, bandwidth=None, model=None):
